@@ -5,7 +5,7 @@ from rules import common
 
 CLAIMED = True
 TECHNIQUE = "static analysis over type-checked MIR: serializer-constructor identity (compact), write inventory and ordering on the writer parameter, key/skip table of the derived Serialize impl, provenance of the Message fields from Record accessors, escaper-only output in the hand-written Serialize impls"
-LEVEL_TEXT = """Static, all-paths decision of the structural clauses (serde_json's escaping and number/string round trip are trusted, not decided): (J1) the serializer is built with serde_json::Serializer::new (compact formatter) on the writer parameter; no pretty/with_formatter constructor anywhere in the module; (J2) the only uses of the writer in encode_inner are that serializer and, after the serialize call's success edge, exactly one write_all of NEWLINE on every Ok path — nothing before, between or after; (J3) the derived Serialize for Message emits the keys time, level, message, module_path, file, line, target, thread, thread_id, mdc in that order, skip_field is guarded by Option::is_none exactly for module_path, file and line, and those three fields of the Message aggregate come straight from Record::{module_path,file,line} (no unwrap_or placeholder); level/target/args/thread likewise from their accessors; (J4) time and message go through Serializer::collect_str, the MDC serialiser uses serialize_map/serialize_key/serialize_value for every log_mdc::iter entry and keeps the first error, and no raw io::Write call occurs inside a Serialize impl of the module. (J9) with the rolling appender: its writer's file field is used only as the receiver of write-family/flush calls - never unwrapped or bypassed (C05.R7 re-evaluated)."""
+LEVEL_TEXT = """Static, all-paths decision of the structural clauses (serde_json's escaping and number/string round trip are trusted, not decided): (J1) the serializer is built with serde_json::Serializer::new (compact formatter) on the writer parameter; no pretty/with_formatter constructor anywhere in the module; (J2) the only uses of the writer in encode_inner are that serializer and, after the serialize call's success edge, exactly one write_all of NEWLINE on every Ok path — nothing before, between or after; (J3) the derived Serialize for Message emits the keys time, level, message, module_path, file, line, target, thread, thread_id, mdc in that order, skip_field is guarded by Option::is_none exactly for module_path, file and line, and those three fields of the Message aggregate come straight from Record::{module_path,file,line} (no unwrap_or placeholder); level/target/args/thread likewise from their accessors; (J4) time and message go through Serializer::collect_str, the MDC serialiser uses serialize_map/serialize_key/serialize_value for every log_mdc::iter entry and keeps the first error, and no raw io::Write call occurs inside a Serialize impl of the module. (J9) with the rolling appender: its writer's file field is used only as the receiver of write-family/flush calls - never unwrapped or bypassed (C05.R7 re-evaluated). (J10) with the file appender: every Ok return of append has passed a checked flush (C04.R2 re-evaluated); (J4, cont.) serialize_map(None)."""
 LEVEL_NOTE = "Trusted: rustc MIR/callee resolution; serde's derive output (as compiled) and serde_json's escaping/formatting; log_mdc::iter visits every entry."
 EXPLANATION = """Decided: J1 compact serializer, J2 exactly one trailing newline, J3 field/skip table and field provenance, J4 everything passes the escaper. Undecided: serde_json's escaping and exact round trip of strings/numbers."""
 DECIDED = ["J1", "J2", "J3", "J4", "J5/J6 sink-side premise: the rolling appender reopens in append mode unless it truncates (C05.R5 re-evaluated)"]
@@ -218,6 +218,11 @@ def run_cfg(ctx, p, cfg):
         it = m.call1("log_mdc::iter")
         en = m.call1("serde_core::ser::SerializeMap::end")
         r.require(m.dominates(sm.block, it.block) and m.dominates(it.block, en.block), "map-iter-end-order", fn=m, detail="serialize_map -> log_mdc::iter -> end")
+        # no length promised in advance: the MDC can change between any count taken earlier and this iteration (a Display argument
+        # of the record may insert into it), and serde_json closes a map announced as empty at once
+        hint = deep_strip(sm.arg(1)) if len(sm.args) > 1 else None
+        r.require(hint is not None and hint[0] == "agg" and hint[2] == "None", "map-length-not-promised", fn=m, site=sm.at, detail="serialize_map(None)",
+                  fail_detail="serialize_map is given the length %s: if the MDC holds a different number of entries when it is iterated the object is closed too early (or never) and the line is not one JSON object" % (show(hint, 4) if hint else None))
         clo = [x for x in walk(it.arg(0)) if x[0] == "closure"]
         okc = False
         if clo:
